@@ -47,7 +47,7 @@ ASSUMPTIONS = [
 ]
 FLOORS = {  # ~40 % of what the unchanged tree produces at quick seed 0 (see evidence/C04.json for the observed counts); thorough = 20 x
     "quick": {
-        "eval:broadcast_shape": 253, "eval:dtype_invariance": 605, "eval:extra_coords_ignored": 118, "eval:fitted_model_owns_its_data": 46,
+        "eval:broadcast_shape": 253, "eval:dtype_invariance": 605, "eval:extra_coords_ignored": 262, "eval:fitted_model_owns_its_data": 46,
         "eval:layout_invariance": 1242, "eval:linearity": 91, "eval:permutation_invariance": 110, "eval:predict_shape": 7110,
         "eval:query_layout": 1046, "eval:reference_agreement": 24, "eval:refit_history": 335, "distinct_nontrivial": 3590,
         "dtype_invariance:all_int32": 60, "dtype_invariance:coords_int32": 60, "dtype_invariance:coords_int64": 60,
@@ -102,10 +102,15 @@ FLOORS = {  # ~40 % of what the unchanged tree produces at quick seed 0 (see evi
         "dtype_invariance:narrow:int16": 26, "dtype_invariance:narrow:int8": 26, "dtype_invariance:narrow:uint16": 26,
         "dtype_invariance:narrow:uint8": 26, "groups:SplineCV": 3, "splinecv:rows=16": 1, "splinecv:rows=25": 1, "splinecv:rows=40": 1,
         "splinecv_layout:2d(m,n)": 3, "splinecv_layout:2d(n,m)": 3, "splinecv_layout:2d_fortran": 3, "splinecv_layout:dataframe_columns": 3,
-        "splinecv_layout:series": 3, "eval:splinecv_layout": 18,
+        "splinecv_layout:series": 3, "eval:splinecv_layout": 18, "constant_data:chain": 11, "constant_data:cubic": 12,
+        "constant_data:float64:nonzero": 57, "constant_data:float64:zero": 57, "constant_data:int64:nonzero": 57, "constant_data:int64:zero": 57,
+        "constant_data:linear": 17, "constant_data:linearity_with_exactly_constant_combination": 46, "constant_data:neighbors": 33,
+        "constant_data:spline": 60, "constant_data:trend": 48, "constant_data:vector": 41, "constant_data:vector_of": 4,
+        "extra_coords_ignored:datetime64": 17, "extra_coords_ignored:datetime64 Series": 19, "extra_coords_ignored:filter_with_time_coordinate": 72,
+        "extra_coords_ignored:timedelta64": 17, "extra_coords_ignored:timedelta64 Series": 18, "eval:constant_data": 276,
     },
     "thorough": {
-        "eval:broadcast_shape": 5060, "eval:dtype_invariance": 12100, "eval:extra_coords_ignored": 2360, "eval:fitted_model_owns_its_data": 920,
+        "eval:broadcast_shape": 5060, "eval:dtype_invariance": 12100, "eval:extra_coords_ignored": 5240, "eval:fitted_model_owns_its_data": 920,
         "eval:layout_invariance": 24840, "eval:linearity": 1820, "eval:permutation_invariance": 2200, "eval:predict_shape": 142200,
         "eval:query_layout": 20920, "eval:reference_agreement": 480, "eval:refit_history": 6700, "distinct_nontrivial": 71800,
         "dtype_invariance:all_int32": 1200, "dtype_invariance:coords_int32": 1200, "dtype_invariance:coords_int64": 1200,
@@ -164,6 +169,12 @@ FLOORS = {  # ~40 % of what the unchanged tree produces at quick seed 0 (see evi
         "dtype_invariance:narrow:uint16": 520, "dtype_invariance:narrow:uint8": 520, "groups:SplineCV": 30, "splinecv:rows=16": 10,
         "splinecv:rows=25": 10, "splinecv:rows=40": 10, "splinecv_layout:2d(m,n)": 30, "splinecv_layout:2d(n,m)": 30,
         "splinecv_layout:2d_fortran": 30, "splinecv_layout:dataframe_columns": 30, "splinecv_layout:series": 30, "eval:splinecv_layout": 180,
+        "constant_data:chain": 220, "constant_data:cubic": 240, "constant_data:float64:nonzero": 1140, "constant_data:float64:zero": 1140,
+        "constant_data:int64:nonzero": 1140, "constant_data:int64:zero": 1140, "constant_data:linear": 340,
+        "constant_data:linearity_with_exactly_constant_combination": 920, "constant_data:neighbors": 660, "constant_data:spline": 1200,
+        "constant_data:trend": 960, "constant_data:vector": 820, "constant_data:vector_of": 80, "extra_coords_ignored:datetime64": 340,
+        "extra_coords_ignored:datetime64 Series": 380, "extra_coords_ignored:filter_with_time_coordinate": 1440,
+        "extra_coords_ignored:timedelta64": 340, "extra_coords_ignored:timedelta64 Series": 360, "eval:constant_data": 5520,
     },
 }
 JOBS = {"quick": 1, "thorough": 16}
@@ -558,6 +569,12 @@ def run_group(run, rng, model, east, north, data, weights, qe, qn, integer_base=
                              % (east.size, model.params["force_coords"][0].size), tuple(refm["pred"]), base, tol_cond + tol_layout + refm["kernel_slack"], base_witness, "reference")
             run.observe_max("reference_agreement_error_over_tolerance", worst)
 
+    # -- exactly constant data; ignored time coordinates -------------------------------------------
+    if rng.random() < 0.4:
+        _constant_fields(run, rng, model, group, conf, east, north, data, weights, qe, qn, refm, informative, attempt)
+    if rng.random() < 0.5:
+        _time_extras(run, rng, model, group, conf, east, north, data, weights, qe, qn, est0, base, attempt)
+
     # -- far extrapolation ------------------------------------------------------------------------
     _far_extrapolation(run, rng, model, group, conf, east, north, data, weights, est0, attempt, nontrivial)
 
@@ -685,6 +702,88 @@ def _mixed_component_dtypes(run, rng, model, group, conf, east, north, data, wei
                                  "dtype:mixed:" + model.kind)
                 run.observe_max("dtype_error_over_tolerance", worst)
                 run.mark_nontrivial("dtype-mixed", vname, conf, east, north, mixed)
+
+
+def _constant_fields(run, rng, model, group, conf, east, north, data, weights, qe, qn, refm, informative, attempt):
+    """Exactly constant data (std == 0): plain constants (0 and non-zero, float64 and int64) and a linearity triple whose combination is constant."""
+    n = east.size
+    ok_cond = informative or model.qhull or model.kind == "neighbors"
+    reproduces = not (_kinds(model) & {"spline", "vector"}) or "trend" in _kinds(model) and model.kind == "chain"  # splines have no constant term
+    rel = max(K_COND * refm["kappa_eff"] * EPS if np.isfinite(refm["kappa_eff"]) else 0.0, model.rtol) + 64 * EPS
+    for value, dt in ((0.0, "float64"), (0, "int64"), (float(rng.choice([7.0, -3.0, 1e6])), "float64"), (int(rng.choice([7, -3, 1000])), "int64")):
+        const = tuple(np.full(n, value, dtype=dt) for _ in range(model.ncomp))
+        wit = dict(conf, variant="constant_data", value=value, dtype=dt, east=east, north=north, query_east=qe, query_north=qn, weights=None if weights is None else list(weights))
+        got = attempt("constant_data", "%s:%s" % (dt, value), lambda: _flat(_predict(_fit(model, (east, north), const, weights), (qe, qn))), wit, "constant")
+        if got is None:
+            continue
+        run.evaluated("constant_data")
+        run.count("constant_data:%s:%s" % (dt, "zero" if value == 0 else "nonzero"))
+        run.count("constant_data:" + model.kind)
+        for g in got:
+            inside = ~np.isnan(g) if model.qhull else np.ones(g.shape, bool)
+            if not np.all(np.isfinite(g[inside])):
+                run.violation("constant_data", "%s fitted to the constant %r (%s) predicts non-finite values" % (group, value, dt), dict(wit, predictions=g), key="constant:nonfinite")
+                break
+            if value == 0 and np.any(np.abs(g[inside]) > 1e-290):
+                run.violation("constant_data", "%s fitted to all-zero data predicts %r" % (group, float(np.max(np.abs(g[inside])))), dict(wit, predictions=g), key="constant:zero")
+                break
+            if value != 0 and reproduces and ok_cond and np.any(np.abs(g[inside] - value) > rel * abs(value) * 4):
+                run.violation("constant_data", "%s fitted to the constant %r predicts values off by %.3g" % (group, value, float(np.max(np.abs(g[inside] - value)))),
+                              dict(wit, predictions=g), key="constant:value")
+                break
+    if model.linear and ok_cond:  # a d1 + d2 is EXACTLY constant
+        a = float(rng.choice([2.0, -3.0, 0.5]))
+        c = float(rng.choice([0.0, 5.0, -40.0]))
+        d1 = tuple(np.round(d / (np.max(np.abs(d)) or 1.0) * 64.0) for d in data)
+        d2 = tuple(c - a * x for x in d1)
+        d3 = tuple(a * x + y for x, y in zip(d1, d2))
+        wit = dict(conf, variant="linearity:constant_combination", a=a, b=1.0, constant=c, east=east, north=north, d1=list(d1), query_east=qe, query_north=qn)
+        if all(np.ptp(x) == 0 for x in d3):
+            res = attempt("constant_data", "linearity", lambda: tuple(_flat(_predict(_fit(model, (east, north), d, weights), (qe, qn))) for d in (d1, d2, d3)), wit, "constant-linearity")
+            if res is not None:
+                p1, p2, p3 = res
+                run.evaluated("constant_data")
+                run.count("constant_data:linearity_with_exactly_constant_combination")
+                scale = abs(a) * max(float(np.max(np.abs(x))) for x in d1) + max(float(np.max(np.abs(x))) for x in d2)
+                scale = max([scale] + [float(np.nanmax(np.abs(p))) for p in p1 + p2 if np.any(~np.isnan(p))])
+                _compare(run, "constant_data", group, "fit(a d1 + d2) with a d1 + d2 == %g exactly vs a fit(d1) + fit(d2)" % c, tuple(a * x + y for x, y in zip(p1, p2)), p3,
+                         rel * scale, wit, "constant-linearity")
+
+
+def _time_extras(run, rng, model, group, conf, east, north, data, weights, qe, qn, est0, base, attempt):
+    """An ignored third coordinate of datetime64 / timedelta64 dtype (array or Series) in fit, predict and filter."""
+    import pandas as pd
+
+    n = east.size
+    unit = str(rng.choice(["ns", "s", "ms"]))
+    if rng.random() < 0.5:
+        tf = np.datetime64("2021-03-04T05:06:07") + (rng.integers(0, 10 ** 6, n)).astype("timedelta64[%s]" % unit)
+        tq = np.datetime64("2022-01-01") + np.arange(qe.size).astype("timedelta64[%s]" % unit)
+        label = "datetime64[%s]" % unit
+    else:
+        tf, tq = rng.integers(0, 10 ** 6, n).astype("timedelta64[%s]" % unit), np.arange(qe.size).astype("timedelta64[%s]" % unit)
+        label = "timedelta64[%s]" % unit
+    if rng.random() < 0.5:
+        tf, tq, label = pd.Series(tf, index=rng.permutation(n) + 7), pd.Series(tq), label + " Series"
+    wit = dict(conf, variant="extra_coords:" + label, east=east, north=north, data=list(data), query_east=qe, query_north=qn)
+    got = attempt("extra_coords_ignored", label, lambda: _flat(_predict(_fit(model, (east, north, tf), data, weights), (qe, qn, tq))), wit, "extra-time")
+    if got is None:
+        return
+    run.evaluated("extra_coords_ignored")
+    run.count("extra_coords_ignored:" + label.split("[")[0] + (" Series" if "Series" in label else ""))
+    if not all(np.array_equal(b, g, equal_nan=True) for b, g in zip(base, got)):
+        run.violation("extra_coords_ignored", "%s with an ignored %s third coordinate in fit and predict differs from the two-coordinate run" % (group, label),
+                      dict(wit, base=list(base), got=list(got)), key="extra-time:" + model.kind)
+    d = data if model.ncomp > 1 else data[0]
+    w = None if weights is None else (weights if model.ncomp > 1 else weights[0])
+    f0 = attempt("extra_coords_ignored", "filter", lambda: est0.filter((east, north), d, w), wit, "extra-time-filter")
+    f1 = attempt("extra_coords_ignored", "filter+" + label, lambda: model.make().filter((east, north, tf), d, w), wit, "extra-time-filter")
+    if f0 is not None and f1 is not None:
+        run.evaluated("extra_coords_ignored")
+        run.count("extra_coords_ignored:filter_with_time_coordinate")
+        r0, r1 = _as_tuple(f0[1]), _as_tuple(f1[1])
+        if not all(np.array_equal(np.asarray(x), np.asarray(y), equal_nan=True) for x, y in zip(r0, r1)):
+            run.violation("extra_coords_ignored", "%s.filter residuals change when an ignored %s coordinate is appended" % (group, label), wit, key="extra-time-filter:" + model.kind)
 
 
 def _refit_histories(run, rng, model, group, conf, east, north, data, weights, qe, qn, base, tol_cond, informative, nontrivial, attempt):
